@@ -199,18 +199,20 @@ func runC05(c *Ctx) {
 			}
 		}
 		var recFld *types.Var
-		allInstrs(a.ctor, func(_ *ssa.BasicBlock, _ int, in ssa.Instruction) {
-			if call, ok := in.(*ssa.Call); ok && call.Call.StaticCallee() == r.fn {
-				switch x := call.Call.Args[pIdx].(type) {
-				case *ssa.Field:
-					recFld = fieldOfField(x)
-				case *ssa.UnOp:
-					if fa, ok := x.X.(*ssa.FieldAddr); ok {
-						recFld = fieldOfAddr(fa)
+		for _, sf := range c.ctorScope(a) {
+			allInstrs(sf, func(_ *ssa.BasicBlock, _ int, in ssa.Instruction) {
+				if call, ok := in.(*ssa.Call); ok && call.Call.StaticCallee() == r.fn {
+					switch x := call.Call.Args[pIdx].(type) {
+					case *ssa.Field:
+						recFld = fieldOfField(x)
+					case *ssa.UnOp:
+						if fa, ok := x.X.(*ssa.FieldAddr); ok {
+							recFld = fieldOfAddr(fa)
+						}
 					}
 				}
-			}
-		})
+			})
+		}
 		if recFld == nil {
 			c.bad(key+": constructor passes the recorded level", a.ctor.Pos(), "the constructor does not pass a field of the operator record unchanged to the registrar (arithmetic on the level?)")
 			continue
